@@ -164,6 +164,10 @@ func funcRange(v []data.Value) data.Value {
 		limit = int(v[0].(data.Int))
 	}
 
+	if increment <= 0 {
+		panic("range increment must be positive")
+	}
+
 	var indices data.List
 	var i = 0
 	for index := init; index < limit; index += increment {
